@@ -371,6 +371,12 @@ static void check_bool_parens(Chunk *popen, Chunk *pclose, int nest)
                  pc->GetOrigLine(), pc->GetOrigCol(), pc->GetLevel());
          ref = pc;
       }
+      else if (pc->Is(CT_ASSIGN))
+      {
+         // an assignment binds weaker than the Boolean operators: what is compared starts behind it
+         ref         = pc;
+         hit_compare = false;
+      }
       else if (  pc->Is(CT_BRACE_OPEN)
               || pc->Is(CT_SQUARE_OPEN)
               || pc->Is(CT_ANGLE_OPEN))
